@@ -39,7 +39,12 @@ def main():
             "synonym_group_ids": list(m.synonym_group_ids()), "begin": m.begin(), "end": m.end(),
         }
 
+    cfg = json.load(open(os.path.join(sdir, "sudachi.json"), encoding="utf-8"))
+    dict_projection = cfg.get("projection", "surface")
+    simple_proj = {"surface": "raw_surface", "normalized": "normalized_form", "reading": "reading_form", "dictionary": "dictionary_form"}
+    out["projection_checks"] = 0
     toks = {k: d.create(mode=v) for k, v in modes.items()}
+    ptoks = {(k, p): d.create(mode=v, projection=p) for k, v in modes.items() for p in simple_proj}
     for case in cases:
         if case.get("kind") == "lookup":
             got = sorted(m.word_id() for m in d.lookup(case["surface"]))
@@ -66,11 +71,29 @@ def main():
         for i, (m, e) in enumerate(zip(ms, exp)):
             v = view(m)
             out["morphemes"] += 1
+            # surface() follows the projection configured for the dictionary
+            e = dict(e)
+            e["surface"] = e[simple_proj.get(dict_projection, "raw_surface")]
             for k in ("surface", "raw_surface", "pos", "pos_id", "dictionary_form", "normalized_form", "reading_form", "word_id",
                       "dictionary_id", "is_oov", "synonym_group_ids", "begin", "end"):
                 out["fields_compared"] += 1
                 if v[k] != e[k]:
                     mismatch("field", "morpheme %d field %s: python %r, library %r" % (i, k, v[k], e[k]), {"text": text, "mode": mode})
+            if i == 0:
+                # an explicit per-tokenizer projection overrides the dictionary-wide one
+                for p, fld in simple_proj.items():
+                    try:
+                        pm = ptoks[(mode, p)].tokenize(text)
+                        got = [x.surface() for x in pm]
+                        want = [ee[fld] for ee in exp]
+                        out["projection_checks"] += 1
+                        if got != want:
+                            mismatch("projection", "create(projection=%r) on a dictionary with projection %r: surfaces %r, expected %r" % (p, dict_projection, got[:6], want[:6]),
+                                     {"text": text, "mode": mode})
+                    except (KeyboardInterrupt, SystemExit):
+                        raise
+                    except BaseException:  # noqa
+                        out["python_exceptions"] += 1
             if text[m.begin():m.end()] != m.raw_surface():
                 mismatch("code_point_slice", "text[begin:end]=%r but raw_surface=%r" % (text[m.begin():m.end()], m.raw_surface()),
                          {"text": text, "mode": mode})
@@ -80,7 +103,7 @@ def main():
                 except Exception as ex:  # noqa
                     out["python_exceptions"] += 1
                     continue
-                got = [(x.surface(), x.word_id(), x.begin(), x.end()) for x in sub]
+                got = [(x.raw_surface(), x.word_id(), x.begin(), x.end()) for x in sub]
                 want = [tuple(x) for x in e["split_" + sm]]
                 out["splits_compared"] += 1
                 if got != want:
